@@ -18,18 +18,26 @@ CHECKS = {
  'C08': ('model_checking', 'open tables of FatApi: handle freshness, stale handles, limits, close-volume rules, has_open_handles, LockError for every result-returning method inside both callbacks', 'TLA+ trace validation: FatApi open tables and limits', '7 C08'),
  'C09': ('model_checking', 'history variable dur (set at successful flush/close, cleared when a modifying call begins); Durable evaluated by TLC on the medium after EVERY later block write; library remount of write-log prefixes', 'TLA+ invariant Durable on every device-write state + crash remounts', '7 C09'),
  'C10': ('model_checking', 'CrashSafe evaluated by TLC on the medium after every block write of every mutating operation (poisoned free clusters), plus library mounts of write-log prefixes', 'TLA+ invariant CrashSafe on every device-write state + crash remounts', '7 C10'),
+ 'C12': ('model_checking', 'the real SdCard driver runs against a simulated card that is a transcription of spec/SdCard.tla; TLC validates every bus event and every call result: reads return the card memory at the addressed blocks, writes change exactly those blocks, capacity = SdCard.CsdBlocks(register), kind identified; kinds x CRC x capacities x timings', 'TLA+ trace validation of driver/card conversations against SdCard.tla (SdTrace)', '7 C12'),
+ 'C13': ('fault_enumeration', 'one card misbehaviour per scenario from the C13 menu (silent, error bits, bad echo, never ready, no/err/bad token, bit flips and bursts, rejected writes, busy for ever, status errors, SPI error at byte k, card dying at byte k with 0xFF/0x00) at every stage; TLC checks each call outcome against the rules of SdTrace and the traffic budget', 'fault enumeration over the SdCard.tla misbehaviour menu, outcomes decided by TLC (SdTrace)', '7 C13'),
+ 'C14': ('model_checking', 'SdCard.HostLegalWhy is evaluated by TLC on every command frame, data block and token the driver puts on the bus in every C12/C13 scenario, including calls after errors and re-initialisation', 'TLA+ protocol acceptor (SdCard.HostLegalWhy) over every recorded bus event', '7 C14'),
  'C16': ('model_checking', 'FatCopiesEqual at every Return (window values in TLA+, byte comparison of the regions by the harness); InfoTruthful at flush/close/close_volume for correct, unknown, stale and out-of-range records', 'TLA+ invariants FatCopiesEqual/InfoTruthful on validated traces', '7 C16'),
 }
 ENGINES = [
- dict(name='fs-trace', path='check', serves_properties=sorted(CHECKS.keys()),
+ dict(name='sd-trace', path='check', serves_properties=['C12', 'C13', 'C14'],
+      kind_free_text='the real SdCard driver against a simulated card behind embedded_hal SpiDevice (harness/src/sim.rs); TLC validates the bus-event trace against spec/SdTrace.tla (SdCard.tla)'),
+ dict(name='fs-trace', path='check', serves_properties=sorted(k for k in CHECKS if k not in ('C12', 'C13', 'C14')),
       kind_free_text='Rust harness (harness/) drives the real VolumeManager over a logging sparse block device; TLC validates the NDJSON trace against spec/FatTrace.tla (FatApi + FatDisk + FatInv)'),
 ]
+SD_NOTE = ('Trusted: TLC; the framing parser of the simulated card (harness/src/sim.rs), whose replies are validated against SdCard.tla event by event; '
+           'the reading of the SD specification transcribed in SdCard.tla (one idle byte before busy after the stop token, CMD12 allowed to abort a multi-block write).')
 checks = []
 for pid, (level, text, tech, ref) in sorted(CHECKS.items()):
+    sd = pid in ('C12', 'C13', 'C14')
     checks.append(dict(property_id=pid, quick_cmd='./check %s --tier quick' % pid, thorough_cmd='./check %s --tier thorough' % pid,
                        evidence_file='evidence/%s.json' % pid, replay_cmd_template='./check %s --replay {path}' % pid,
-                       engine='fs-trace', level_claimed=dict(category=level, text=text, design_ref='DESIGN.md section ' + ref),
-                       level_note=FS_NOTE, technique=tech))
+                       engine='sd-trace' if sd else 'fs-trace', level_claimed=dict(category=level, text=text, design_ref='DESIGN.md section ' + ref),
+                       level_note=SD_NOTE if sd else FS_NOTE, technique=tech))
 na = [dict(property_id=p['id'], reason='check under construction in this build phase (DESIGN.md section 7 describes the planned TLA+ model and conformance harness)')
       for p in props if p['id'] not in CHECKS]
 m = dict(version=1,
